@@ -27,6 +27,8 @@ structure Valid (C : Cls) (conf : String → V → Prop) (addOk : V → Prop) (s
   viewsNo  : ∀ f ∈ C.fields, f.noOutput = true → s.data.get f.name = none
   /-- … and an output field that is absent from the keys is absent as an attribute too -/
   viewsOut : ∀ f ∈ C.fields, f.noOutput = false → s.data.get f.name = none → s.attrs.get f.attname = none
+  /-- a property is never kept in `__dict__` -/
+  propAttr : ∀ p ∈ C.fields, p.isProp = true → s.attrs.get p.attname = none
 
 /-- "immutable fields hold their initial value": what both views store for a field -/
 def stored (s : State V) (f : Field) : Option V × Option V := (s.data.get f.name, s.attrs.get f.attname)
@@ -40,18 +42,25 @@ def Fresh (C : Cls) (W : World V) (s : State V) : Prop :=
   ∀ p ∈ C.fields, p.isProp = true → ∀ v, s.data.get p.name = some v →
     compute C W s p = some v ∧ ∀ d ∈ p.deps, ∀ df, getField C d = some df → avail s df = true
 
-/-- "no public operation can place unparsed data into the instance": where a stored value comes from -/
-def Origin (C : Cls) (W : World V) (s : State V) (k : String) (v : V) : Prop :=
-  s.data.get k = some v
-  ∨ (∃ f x, getField C k = some f ∧ W.parse f.name x = some v)
-  ∨ (∃ p xs, getField C k = some p ∧ W.getter p.name xs = some v)
-  ∨ (getField C k = none ∧ (C.opts.addition = .allow ∨ ∃ x, W.parseAdd x = some v))
+/-- "no public operation can place unparsed data into the instance": where a value under the keys comes from
+(`xs`: the raw arguments of the operation) -/
+def Origin (C : Cls) (W : World V) (xs : List V) (s : State V) (k : String) (v : V) : Prop :=
+  s.data.get k = some v                                                            -- it was there
+  ∨ (∃ f, getField C k = some f ∧ ∃ x ∈ xs, W.parse f.name x = some v)            -- an argument, converted by the field's type
+  ∨ (∃ p raw, getField C k = some p ∧ W.convert p.name raw = some v)              -- a getter result, converted
+  ∨ (getField C k = none ∧ ((C.opts.addition = .allow ∧ v ∈ xs) ∨ ∃ x ∈ xs, W.parseAdd x = some v))   -- an accepted addition
+
+/-- … and where a value in `__dict__` comes from -/
+def OriginAttr (C : Cls) (W : World V) (xs : List V) (s : State V) (a : String) (v : V) : Prop :=
+  s.attrs.get a = some v
+  ∨ (∃ f, fieldByAtt C a = some f ∧ ∃ x ∈ xs, W.parse f.name x = some v)
+  ∨ (fieldByAtt C a = none ∧ v ∈ xs)              -- a plain instance attribute that is no field
 
 /-- what the theorems assume about the abstract converters -/
 structure Laws (W : World V) (conf : String → V → Prop) (addOk : V → Prop) : Prop where
   parseSound  : ∀ f x v, W.parse f x = some v → conf f v        -- C01: a converter's result conforms
   addSound    : ∀ x v, W.parseAdd x = some v → addOk v
-  getterSound : ∀ p xs v, W.getter p xs = some v → conf p v      -- the converted getter result conforms
+  convertSound : ∀ p raw v, W.convert p raw = some v → conf p v  -- the converted getter result conforms
 
 /-- single-key operations (update and `|=` are sequences of `__setitem__`) -/
 def Op.singleKey : Op V → Bool
